@@ -149,7 +149,11 @@ def gen_dec(chk, program, slots=SLOTS, rule='GEN-DEC', with_msg=True, with_flow=
                     continue
                 if fnd is None:
                     # dataclass default applies
-                    chk.violation(rule, f"{finst}::{slot}", file=PG, line=fr['line'], func=fname, expected=show(e), found='argument absent (dataclass default)')
+                    from .gen import dataclass_defaults
+                    dflt = dataclass_defaults(program.cls('message', 'NMEA2000Field')).get(slot)
+                    okd = dflt is not None and canon(dflt) == e
+                    chk.check(okd, rule, f"{finst}::{slot}", file=PG, line=fr['line'], func=fname, expected=show(e), found=f"argument absent (dataclass default {show(dflt) if dflt is not None else 'none'})",
+                              nontrivial=nontrivial)
                     continue
                 ok = (fnd == e)
                 chk.check(ok, rule, f"{finst}::{slot}", file=PG, line=fr['line'], func=fname, expected=show(e), found=show(fnd),
